@@ -47,6 +47,17 @@ def scenarios(tier, rng):
         pspec, full = P[pname]
         out.append(base_scenario(f"{kind}-{pname}-f1-to-convergence", kind, pname, pspec, full, 1, 2, rng.random() < 0.5,
                                  [{"ops": [{"op": "new"}, {"op": "solve", "k": BIG}, {"op": "wait"}, {"op": "list", "dir": "@A"}]}]))
+    # the iteration limit is exactly the iteration at which the run converges (and one less / one more), cadences that
+    # divide that iteration or not
+    for kind, pname in (("VI", "forest"), ("RVI", "forest"), ("PI", "forest"), ("SAVI", "forest")):
+        pspec, full = P[pname]
+        for lim in ("@CONV", "@CONV-1", "@CONV+1"):
+            for freq in ((1, 2) if tier == "quick" else (1, 2, 3, 4)):
+                out.append(base_scenario(f"{kind}-{pname}-limit{lim.strip('@')}-f{freq}", kind, pname, pspec, full, freq, 2,
+                                         rng.random() < 0.5,
+                                         [{"ops": [{"op": "new"}, {"op": "solve", "k": lim}, {"op": "wait"}, {"op": "list", "dir": "@A"}]},
+                                          {"ops": [{"op": "list", "dir": "@A"}, restore_op(full), {"op": "solve", "k": 2},
+                                                   {"op": "wait"}, {"op": "list", "dir": "@A"}]}]))
     # an unrelated, verbose solver instance is constructed before the run (logging is process-global state)
     for kind, pname, keep in (("VI", "forest", 3), ("PI", "forest", 2), ("VI", "tabular", 2)):
         pspec, full = P[pname]
